@@ -56,7 +56,7 @@ def run_spec(spec, cap=20000, wall=30, fault=None, sim_class=None):
     return tr, Q, status, crash
 
 
-def collect_context(spec, tr, Q, status, cut):
+def collect_context(spec, tr, Q, status, cut, rec_total=None):
     """Everything oracles may need from the live objects, copied out (so oracles are pure)."""
     t_cut = cut['t'] if cut else None
     final_ok = (status == 'ok') and cut is None
@@ -78,10 +78,14 @@ def collect_context(spec, tr, Q, status, cut):
         for loc, i in inds:
             recs = list(i.data_records)
             cx['where'][i.id_number] = (loc, recs, getattr(i, 'starting_node', None))
-            if cut is not None:
+            hook_complete = rec_total is None or rec_total.get(i.id_number, 0) == len(recs)
+            if not hook_complete:
+                # records were written on a path that bypasses the hooked write_* methods (a refactor): the record log cannot
+                # tell which records precede a cut. Uncut runs simply use all records; cut runs judge no records at all.
+                tr.count('record_log_incomplete')
+                if cut is not None: recs = []
+            elif cut is not None:
                 recs = recs[:nrec.get(i.id_number, 0)]   # only records written before the cut
-            elif status == 'ok' and len(recs) != nrec.get(i.id_number, 0):
-                cx['collect_error'] = 'records of customer %d: %d in data_records, %d written through the write_* methods' % (i.id_number, len(recs), nrec.get(i.id_number, 0))
             for r in recs:
                 cx['records'].append((i.id_number, r))
         if final_ok:
@@ -115,6 +119,9 @@ def evaluate(spec, props, cap=20000, wall=30):
     """Run + judge. Returns a JSON-able summary dict."""
     tr, Q, status, crash = run_spec(spec, cap=cap, wall=wall)
     n_events_total = sum(1 for e in tr.events if e[0] == 'EVENT')
+    rec_total = {}
+    for e in tr.events:
+        if e[0] == 'record': rec_total[e[3]] = rec_total.get(e[3], 0) + 1
     cut = taint.scan(spec, tr)
     if cut is None and status in ('crash', 'timeout'):
         # the last engine event did not complete (no snapshot after it): what it wrote is not judged
@@ -123,7 +130,7 @@ def evaluate(spec, props, cap=20000, wall=30):
             cut = dict(finding=None, group=len(last) - 1, event_index=last[-1], t=tr.events[last[-1]][1], detail=('incomplete_event',))
     if cut:
         apply_cut(tr, cut)
-    cx = collect_context(spec, tr, Q, status, cut)
+    cx = collect_context(spec, tr, Q, status, cut, rec_total if status == 'ok' else None)
     cx['crash'] = crash
     cx['tainted'] = bool(cut and cut['finding'])
     cx['soft'] = taint.soft(spec, tr)
